@@ -86,6 +86,46 @@ where
             honest_proof::<CS>(h, &pk, &s, hdr.as_deref(), ph.as_deref(), &msgs, &d, k % 3 != 2);
         }
     }
+    // presentation headers, headers and disclosed messages beyond 2^16 octets (the challenge input has no size limit)
+    {
+        let mut msgs = rand_msgs(h, 3);
+        msgs[2] = h.rng.bytes(66000);
+        for (hl, pl) in [(0usize, 70000usize), (66000, 5), (66000, 70000)] {
+            let hdr: Option<Vec<u8>> = if hl == 0 { None } else { Some(h.rng.bytes(hl)) };
+            let ph = h.rng.bytes(pl);
+            h.stat("C03.large_ph");
+            if let Some(s) = sign::<CS>(h, &sk, &pk, hdr.as_deref(), Some(&msgs)).ok() {
+                let sb = s.to_bytes();
+                for d in [vec![0usize, 2], vec![]] {
+                    if honest_proof::<CS>(h, &pk, &sb, hdr.as_deref(), Some(&ph), &msgs, &d, d.is_empty()).is_none() {
+                        h.expect(false, "C03.large_ph", &format!("proof generation / verification failed with a {}-octet header and a {}-octet presentation header", hl, pl), &[h.last()]);
+                    }
+                }
+            } else {
+                h.expect(false, "C03.large_ph_sign", "sign failed with a large header", &[h.last()]);
+            }
+        }
+    }
+    // the verifier given a disclosed position TWICE in its index list (with one message per distinct position):
+    // the list names the same set, the proof verifies
+    {
+        let msgs = rand_msgs(h, 4);
+        if let Some(s) = sign::<CS>(h, &sk, &pk, None, Some(&msgs)).ok() {
+            let sb = s.to_bytes();
+            if let Some(p) = honest_proof::<CS>(h, &pk, &sb, None, None, &msgs, &[0, 2], true) {
+                let dm = vec![msgs[0].clone(), msgs[2].clone()];
+                for idx in [vec![0usize, 0, 2], vec![0, 2, 2], vec![2, 0, 0, 2]] {
+                    let v = proofverify::<CS>(h, &pk, &p, None, None, Some(&dm), Some(&idx));
+                    h.stat("C03.verifier_repeated_index");
+                    // (unsorted lists pair messages with positions differently -- observation O5 -- so only lists whose
+                    // sorted, de-duplicated form is the disclosed set in ascending order are required to verify)
+                    if idx.windows(2).all(|w| w[0] <= w[1]) {
+                        h.expect(v.is_ok(), "C03.verifier_repeated_index", &format!("an honest proof is refused when the verifier lists a disclosed position twice ({:?})", idx), &[h.last()]);
+                    }
+                }
+            }
+        }
+    }
     // repeated message VALUES at different positions (all equal; a,t,t,b,t): every subset
     for pattern in [vec![0usize, 0, 0], vec![0, 1, 1, 2, 1], vec![1, 1], vec![0, 1, 0, 1]] {
         let vals = rand_msgs(h, 3);
